@@ -20,6 +20,7 @@ import (
 	"fmt"
 	"io"
 	"net"
+	"sync"
 	"time"
 
 	"github.com/glycerine/rbuf"
@@ -79,6 +80,10 @@ type Socket struct {
 
 	rchan chan interface{}
 
+	// guards rbuffer: filled by the receive loop, drained by the
+	// goroutine that handles the connection
+	m *sync.Mutex
+
 	rbuffer *rbuf.FixedSizeRingBuf
 	wbuffer *rbuf.FixedSizeRingBuf
 
@@ -115,7 +120,9 @@ func (s Socket) Read(p []byte) (n int, err error) {
 		return 0, io.EOF
 	}
 
+	s.m.Lock()
 	n, _ = s.rbuffer.Read(p)
+	s.m.Unlock()
 	if n > 0 {
 		return
 	}
@@ -128,12 +135,16 @@ func (s Socket) Read(p []byte) (n int, err error) {
 		return 0, errors.New("Read timeout occurred")
 	}
 
+	s.m.Lock()
 	n, _ = s.rbuffer.Read(p)
+	s.m.Unlock()
 	return
 }
 
 func (s Socket) write(p []byte) (n int, err error) {
+	s.m.Lock()
 	s.rbuffer.Write(p)
+	s.m.Unlock()
 	return len(p), nil
 }
 
@@ -175,6 +186,8 @@ func (state *State) NewSocket(src, dst net.Addr) *Socket {
 		raddr: src,
 
 		rchan: make(chan interface{}),
+
+		m: &sync.Mutex{},
 
 		// rbuffer: rbuf.NewFixedSizeRingBuf(65535),
 		// wbuffer: rbuf.NewFixedSizeRingBuf(65535),
